@@ -339,8 +339,17 @@ func init() {
 		e.observed = append(e.observed, sb.String())
 		return nil
 	})
+	R("AllocBudget", func(e *Engine, fr *frame, a []Value) Value { e.allocBudget = int64(a[0].(Term).Int()); return nil })
 	R("AssumeCollisionFree", func(e *Engine, fr *frame, a []Value) Value { e.assumeCollisionFree(); return nil })
-	R("Note", func(e *Engine, fr *frame, a []Value) Value { return nil })
+	R("Note", func(e *Engine, fr *frame, a []Value) Value {
+		if e.notes == nil {
+			e.notes = map[string]bool{}
+		}
+		if len(e.notes) < 200 {
+			e.notes[strVal(a[0])] = true
+		}
+		return nil
+	})
 
 	// ---- hashes
 	intrinsics["crypto/sha1.Sum"] = func(e *Engine, fr *frame, a []Value) Value {
